@@ -1,0 +1,40 @@
+//go:build verif
+
+// Package verifhook provides instrumentation points for the external
+// verification harness (/verif). Built without the `verif` tag every function
+// here is an empty inlineable no-op.
+package verifhook
+
+import "sync/atomic"
+
+// Hooks is the set of callbacks a harness may install.
+type Hooks struct {
+	// Gate is called at the entry of a critical section (before the lock is
+	// taken). It may block (scheduled replay) or yield (perturbation).
+	Gate func(obj any, point string)
+	// Emit is called inside a critical section after the state change and
+	// before the lock is released.
+	Emit func(obj any, ev string, s string, n []int64)
+}
+
+var hooks atomic.Pointer[Hooks]
+
+// Enabled reports whether the package was built with the verif tag.
+const Enabled = true
+
+// Install installs (or with nil removes) the harness callbacks.
+func Install(h *Hooks) { hooks.Store(h) }
+
+// Gate marks the entry of a critical section.
+func Gate(obj any, point string) {
+	if h := hooks.Load(); h != nil && h.Gate != nil {
+		h.Gate(obj, point)
+	}
+}
+
+// Emit records an event from inside a critical section.
+func Emit(obj any, ev string, s string, n ...int64) {
+	if h := hooks.Load(); h != nil && h.Emit != nil {
+		h.Emit(obj, ev, s, n)
+	}
+}
